@@ -86,6 +86,21 @@ def evaluate(fa, c, datum, checks, opts=None, tuples=True):
             V("c01.value", "roundtrip-different-value", f"read back {short(got)}, expected {short(expected)}")
         if fo.tell() != len(raw):
             V("c01.position", "reader-position", f"reader stopped at {fo.tell()} of {len(raw)} bytes")
+        # the same bytes (twice) behind a buffered reader with a tiny buffer, like a file opened 'rb' but with its buffer
+        # boundaries falling inside almost every multi-byte item; such streams also offer peek()
+        if len(raw) > 1:
+            for bs in (2, 7):
+                br = io.BufferedReader(io.BytesIO(raw + raw), buffer_size=bs)
+                try:
+                    g1 = fa.schemaless_reader(br, c.schema)
+                    g2 = fa.schemaless_reader(br, c.schema)
+                    rest = br.read()
+                except Exception as e:
+                    V("c01.read", f"read-raised:{exc_tag(e)}:buffered-stream", f"reading through a BufferedReader (buffer {bs}) raised {type(e).__name__}: {e} on bytes {raw[:60].hex()}")
+                    break
+                if not (same(g1, got) and same(g2, got) and rest == b""):
+                    V("c01.value", "buffered-stream-differs", f"through a BufferedReader (buffer {bs}): {short(g1, 120)}, {short(g2, 120)}, {len(rest)} bytes left; through BytesIO {short(got, 120)}")
+                    break
         # two values back to back on one stream
         fo2 = io.BytesIO()
         try:
